@@ -167,6 +167,9 @@ func runOracle(mode string, c *Case) CaseResult {
 	case "dist":
 		return oracleDist(c)
 	}
+	if f, ok := extraOracles[mode]; ok {
+		return f(c)
+	}
 	fatal(fmt.Errorf("unknown oracle mode %q", mode))
 	return CaseResult{}
 }
